@@ -149,19 +149,17 @@ func (p *Parser) parseShowStatement() (ast.Statement, error) {
 
 // parseDescribeStatement parses DESCRIBE/DESC/EXPLAIN table_name
 func (p *Parser) parseDescribeStatement() (ast.Statement, error) {
-	// For EXPLAIN SELECT ..., defer to parseStatement for the SELECT
+	// For EXPLAIN SELECT ..., parse the query and keep it in the statement
 	// For DESCRIBE table_name, just parse the table name
 	if p.isType(models.TokenTypeSelect) {
-		// EXPLAIN SELECT ... — treat as describe with the query text
-		// For now, just skip to parse the select
 		p.advance()
 		stmt, err := p.parseSelectWithSetOperations()
 		if err != nil {
 			return nil, err
 		}
-		// Wrap in a describe
-		_ = stmt
-		return &ast.DescribeStatement{TableName: "SELECT"}, nil
+		// The explained query is part of the tree: serialisation, traversal, the security
+		// scanner and the metadata extractors see it.
+		return &ast.DescribeStatement{TableName: "SELECT", Query: stmt}, nil
 	}
 
 	name, err := p.parseQualifiedName()
